@@ -111,7 +111,7 @@ func (p *gcpPicker) Pick(info balancer.PickInfo) (balancer.PickResult, error) {
 			bindKeys, err := getAffinityKeysFromMessage(locator, gcpCtx.replyMsg)
 			if err == nil {
 				for _, bk := range bindKeys {
-					p.gb.bindSubConn(bk, scRef.subConn)
+					p.gb.bindSubConn(bk, scRef.getSubConn())
 				}
 			}
 		case grpc_gcp.AffinityConfig_UNBIND:
@@ -120,9 +120,9 @@ func (p *gcpPicker) Pick(info balancer.PickInfo) (balancer.PickResult, error) {
 	}
 
 	if p.log.V(FINEST) {
-		p.log.Infof("picked SubConn: %p", scRef.subConn)
+		p.log.Infof("picked SubConn: %p", scRef.getSubConn())
 	}
-	return balancer.PickResult{SubConn: scRef.subConn, Done: callback}, nil
+	return balancer.PickResult{SubConn: scRef.getSubConn(), Done: callback}, nil
 }
 
 // unresponsiveWindow returns channel pool's unresponsiveDetectionMs multiplied
@@ -132,7 +132,7 @@ func (p *gcpPicker) unresponsiveWindow(scRef *subConnRef) time.Duration {
 	window := time.Millisecond * time.Duration(p.gb.cfg.GetChannelPool().GetUnresponsiveDetectionMs())
 	// Double in 64 bits and saturate: 32-bit arithmetic wrapped around for large
 	// detection periods or after many consecutive refreshes.
-	for i, cnt := uint32(0), scRef.refreshCnt; i < cnt; i++ {
+	for i, cnt := uint32(0), scRef.getRefreshCnt(); i < cnt; i++ {
 		if window > math.MaxInt64/2 {
 			return math.MaxInt64
 		}
@@ -153,14 +153,14 @@ func (p *gcpPicker) detectUnresponsive(ctx context.Context, scRef *subConnRef, c
 		return
 	}
 
-	if callStarted.Before(scRef.lastResp) {
+	if callStarted.Before(scRef.getLastResp()) {
 		return
 	}
 
 	// Increment deadline exceeded calls and check if there were enough deadline
 	// exceeded calls and enough time passed since last response to trigger refresh.
 	if scRef.deCallsInc() >= p.gb.cfg.GetChannelPool().GetUnresponsiveCalls() &&
-		scRef.lastResp.Before(time.Now().Add(-p.unresponsiveWindow(scRef))) {
+		scRef.getLastResp().Before(time.Now().Add(-p.unresponsiveWindow(scRef))) {
 		p.gb.refresh(scRef)
 	}
 }
@@ -169,7 +169,7 @@ func (p *gcpPicker) getAndIncrementSubConnRef(ctx context.Context, boundKey stri
 	if cmd == grpc_gcp.AffinityConfig_BIND && p.gb.cfg.GetChannelPool().GetBindPickStrategy() == grpc_gcp.ChannelPoolConfig_ROUND_ROBIN {
 		scRef := p.gb.getSubConnRoundRobin(ctx)
 		if p.log.V(FINEST) {
-			p.log.Infof("picking SubConn for round-robin bind: %p", scRef.subConn)
+			p.log.Infof("picking SubConn for round-robin bind: %p", scRef.getSubConn())
 		}
 		scRef.streamsIncr()
 		return scRef, nil
